@@ -24,7 +24,7 @@ func (*c12World) Runs(tier string) int {
 	if tier == "thorough" {
 		return 160000
 	}
-	return 2400
+	return 24000
 }
 func (*c12World) Info() kernel.WorldInfo {
 	return kernel.WorldInfo{
@@ -57,6 +57,8 @@ var respNames = []string{"ample", "exact", "deficit-1", "1sat", "barely", "empty
 type c12Scenario struct {
 	stdSat, stdBytes, dataSat, dataBytes int
 	priorVals                          []uint64
+	priorForm                          []int // 0 nil unlocking script, 1 empty non-nil, 2 already signed
+	transit                            bool  // starting tx went through an extended-format round trip
 	outs                               []c12Out
 	resps                              []c12Resp
 	seedBytes                          []byte
@@ -72,10 +74,24 @@ func (s *c12Scenario) build() (*bt.Tx, *bt.FeeQuote) {
 	for i, v := range s.priorVals {
 		in := &bt.Input{PreviousTxOutIndex: uint32(i), PreviousTxSatoshis: v, PreviousTxScript: scriptPtr(p2pkh(s.h20(100 + i))), SequenceNumber: 0xfffffffe}
 		_ = in.PreviousTxIDAdd(s.txid(100 + i))
+		switch s.priorForm[i] {
+		case 1:
+			in.UnlockingScript = scriptPtr(nil)
+		case 2:
+			us := append([]byte{0x48}, make([]byte, 72)...)
+			us = append(append(us, 0x21), make([]byte, 33)...)
+			in.UnlockingScript = scriptPtr(us)
+		}
 		tx.Inputs = append(tx.Inputs, in)
 	}
 	for _, o := range s.outs {
 		tx.Outputs = append(tx.Outputs, &bt.Output{Satoshis: o.sats, LockingScript: scriptPtr(o.script)})
+	}
+	if s.transit {
+		// the draft arrived over the wire in extended format (previous outputs survive, scripts become non-nil)
+		if rt, err := bt.NewTxFromBytes(tx.ExtendedBytes()); err == nil {
+			tx = rt
+		}
 	}
 	fq := bt.NewFeeQuote()
 	fq.AddQuote(bt.FeeTypeStandard, &bt.Fee{FeeType: bt.FeeTypeStandard, MiningFee: bt.FeeUnit{Satoshis: s.stdSat, Bytes: s.stdBytes}, RelayFee: bt.FeeUnit{Satoshis: s.stdSat, Bytes: s.stdBytes}})
@@ -116,11 +132,22 @@ func genC12(c *kernel.RunCtx) *c12Scenario {
 	c.End()
 	c.Begin("tx")
 	np := c.Pick(5, 3, 2, 1)
+	many := c.Bool(1, 25)
+	if many {
+		// just below the 252/253 input-count varint boundary, so that funding crosses it
+		np = c.Range(247, 253)
+	}
 	for i := 0; i < np; i++ {
 		c.Begin("prior")
-		s.priorVals = append(s.priorVals, uint64(c.Pick(1, 3)*c.Range(0, 100000)))
+		v := uint64(c.Pick(1, 3) * c.Range(0, 100000))
+		if many {
+			v %= 50
+		}
+		s.priorVals = append(s.priorVals, v)
+		s.priorForm = append(s.priorForm, c.Pick(4, 2, 2))
 		c.End()
 	}
+	s.transit = c.Bool(1, 5)
 	no := c.Range(0, 6)
 	if c.Bool(1, 40) {
 		no = []int{252, 253}[c.Choose(2)]
@@ -149,6 +176,9 @@ func genC12(c *kernel.RunCtx) *c12Scenario {
 		//               ample exact d-1 1sat barely empty noutxo wrapped error badtxid badscript nilscript cancel
 		r.kind = c.Pick(5, 8, 6, 5, 8, 4, 1, 1, 1, 1, 1, 1, 1)
 		r.n = 1 + c.Pick(5, 3, 2, 1, 1)
+		if c.Bool(1, 50) {
+			r.n = c.Range(250, 300) // one huge batch: crosses the input-count varint boundary at once
+		}
 		r.pos = c.Choose(r.n)
 		r.aux = c.U64n(1 << 20)
 		s.resps = append(s.resps, r)
@@ -378,12 +408,20 @@ func (w *c12World) one(c *kernel.RunCtx, s *c12Scenario, resps []c12Resp, fname 
 		return
 	}
 	c.Logf("fund returned err=%v after %d calls", err, sup.calls)
-	c.Distinct(fmt.Sprintf("%s|%s|%s|%d", strings.Join(sup.kinds, ","), fname, outcome, sup.calls))
+	if sup.calls > 0 {
+		c.Distinct(fmt.Sprintf("%s|%s|%s|%d", strings.Join(sup.kinds, ","), fname, outcome, sup.calls))
+	}
 	if sup.calls > 0 {
 		c.Count("probe.supplier_called", 1)
 	}
 	if sup.calls >= 3 {
 		c.Count("probe.fund_called_supplier_3plus", 1)
+	}
+	if len(s.priorVals) < 253 && len(model.Inputs) >= 253 {
+		c.Count("probe.input_count_crossed_253", 1)
+	}
+	if s.transit && len(s.priorVals) > 0 {
+		c.Count("probe.prior_inputs_round_tripped", 1)
 	}
 	if c.WantSample() && sup.calls >= 2 {
 		c.Sample(map[string]interface{}{"prior_inputs": len(s.priorVals), "outputs": len(s.outs), "quote": fmt.Sprintf("std %d/%d data %d/%d", s.stdSat, s.stdBytes, s.dataSat, s.dataBytes),
